@@ -1,38 +1,38 @@
 #!/usr/bin/env python3
-"""Regenerates /verif/MANIFEST.json from the list of built checks (hv list) and
-the per-property texts below."""
-import json, subprocess, os
+"""Regenerates /verif/MANIFEST.json from the checks registered in the hv binary
+(`hv describe`): every registered property is claimed at level 'other'; the
+rest goes under not_applicable with the reason given below."""
+import json, subprocess
 
 ALL = ["C%02d" % i for i in range(1, 21)]
 
-TEXT = {
- "C01": ("Structural necessary conditions of 'no proxying before auth', decided for every path: gate-flag writer census (only `true`, only behind the Authenticate true-edge, under the mutex), no re-evaluation, flag per connection, and call-graph gating of every Outbound.TCP/UDP/CheckUDP site behind the dispatcher/auth-ok edges; dispatcher silent before the gate. Right level because the property quantifies over histories and schedules that only an all-paths argument covers; not a proof of the behaviour (library dispatch and payload relay are outside).",
-         "go/types+go/ssa model of the source; VTA call graph for dynamic calls inside the repo; quic-go http3 calls handler/dispatcher of the same connection; unsynchronised flag read not judged",
-         "SSA edge-guard reachability, field-writer census, lockset, VTA call-graph gating"),
-}
-
 NA_REASON = {}
+DEFAULT_NA = "no static check registered yet for this property in the current state of /verif (work in progress; DESIGN.md §2 lists the planned structural clauses)"
 
 def main():
-    built = subprocess.run(["/verif/bin/hv", "list"], capture_output=True, text=True).stdout.split()
-    checks = []
-    na = []
+    desc = json.loads(subprocess.run(["/verif/bin/hv", "describe"], capture_output=True, text=True, check=True).stdout)
+    by = {d["id"]: d for d in desc}
+    checks, na = [], []
     for pid in ALL:
-        if pid in built and pid in TEXT:
-            text, note, tech = TEXT[pid]
-            checks.append({
-                "property_id": pid,
-                "quick_cmd": "/verif/bin/hv check %s --tier quick" % pid,
-                "thorough_cmd": "/verif/bin/hv check %s --tier thorough" % pid,
-                "evidence_file": "/verif/evidence/%s.json" % pid,
-                "replay_cmd_template": "/verif/bin/hv explain {path}",
-                "engine": "hv",
-                "level_claimed": {"category": "other", "text": text, "design_ref": "DESIGN.md §2 " + pid},
-                "level_note": note,
-                "technique": "static analysis: " + tech,
-            })
-        else:
-            na.append({"property_id": pid, "reason": NA_REASON.get(pid, "no static check registered yet for this property in the current state of /verif (work in progress; see DESIGN.md §2 for the planned structural clauses)")})
+        d = by.get(pid)
+        if d is None:
+            na.append({"property_id": pid, "reason": NA_REASON.get(pid, DEFAULT_NA)})
+            continue
+        text = ("Structural necessary conditions of the property, decided on every path of /repo's current source (not on sampled runs): "
+                + d["explanation"] + " This is the right level because the property quantifies over inputs/histories/schedules that only an all-paths argument reaches; it is NOT a proof of the behaviour: "
+                + "not decided: " + "; ".join(d["not_decided"]) + ".")
+        note = "Trusted base: go/types + go/ssa (x/tools v0.29.0) model of the source, hv's rule code; assumptions: " + ("; ".join(d["assumptions"]) if d["assumptions"] else "none beyond the trusted base") + "."
+        checks.append({
+            "property_id": pid,
+            "quick_cmd": "/verif/bin/hv check %s --tier quick" % pid,
+            "thorough_cmd": "/verif/bin/hv check %s --tier thorough" % pid,
+            "evidence_file": "/verif/evidence/%s.json" % pid,
+            "replay_cmd_template": "/verif/bin/hv explain {path}",
+            "engine": "hv",
+            "level_claimed": {"category": "other", "text": text, "design_ref": "DESIGN.md §2 " + pid},
+            "level_note": note,
+            "technique": d["technique"],
+        })
     m = {
         "version": 1,
         "setup_cmd": "cd /verif/hv && GOFLAGS=-mod=mod GOPROXY=off go build -o /verif/bin/hv .",
@@ -44,10 +44,10 @@ def main():
             "add_only": True,
         },
         "engines": [{"name": "hv", "path": "/verif/hv", "serves_properties": [c["property_id"] for c in checks],
-                     "kind_free_text": "repository-specific static analyser (Go, golang.org/x/tools v0.29.0: go/packages, go/ssa, callgraph/vta): edge-guard reachability, field censuses, locksets, may-write taint, sibling agreement"}],
+                     "kind_free_text": "repository-specific static analyser (Go, golang.org/x/tools v0.29.0: go/packages, go/ssa, callgraph/vta): edge-guard reachability, field censuses, locksets, ownership/overwrite rule, may-write taint, sibling agreement; thorough tier adds 4 more GOOS/GOARCH configurations and replays seeded breakages / behaviour-preserving refactors on scratch copies"}],
         "checks": checks,
         "not_applicable": na,
-        "notes": "All checks are static analysis of /repo's current working tree; level 'other' = structural necessary conditions decided for all paths, see DESIGN.md.",
+        "notes": "All checks are static analysis of /repo's current working tree; level 'other' = structural necessary conditions decided for all paths, see DESIGN.md. Genuine defects found were repaired by fix: commits in /repo and are listed as fixed: in /verif/known_findings.txt.",
     }
     json.dump(m, open("/verif/MANIFEST.json", "w"), indent=1)
     print("checks:", [c["property_id"] for c in checks], "na:", len(na))
